@@ -45,6 +45,19 @@ def cases(rng, tier):
         [("gate", "pair", ["a", "b"], [], [("apply", "cz", [("r", "a"), ("r", "b")], [])]), ("apply", "pair", [q0, q1], []),
          ("gate", "cz", ["a", "b"], [], [("apply", "cx", [("r", "a"), ("r", "b")], [])]), ("apply", "pair", [q0, q1], [])],
     ]
+    # inside a gate body: statements whose parameters all evaluate to exactly zero (literally, through a formal bound to
+    # 0, through a cancelling expression) and whose callee is NOT the identity there
+    A = ("r", "a"); B = ("r", "b")
+    Z0 = ("num", "0")
+    shadow += [
+        [("gate", "gz", ["a"], [], [("apply", "u2", [A], [Z0, Z0]), ("apply", "x", [A], [])]), ("apply", "gz", [q0], [])],
+        [("gate", "gz2", ["a", "b"], ["t"], [("apply", "cu2", [A, B], [("var", "t"), ("sub", ("var", "t"), ("var", "t"))]),
+                                            ("apply", "u3", [B], [Z0, ("var", "t"), Z0])]),
+         ("apply", "gz2", [q0, q1], [Z0]), ("apply", "gz2", [q1, q0], [("num", "1.5")])],
+        [("gate", "flip", ["a"], ["t"], [("apply", "x", [A], []), ("apply", "rz", [A], [("var", "t")])]),
+         ("gate", "wr", ["a"], ["t"], [("apply", "flip", [A], [("sub", ("var", "t"), ("var", "pi"))]), ("apply", "h", [A], [])]),
+         ("apply", "wr", [q1], [("var", "pi")]), ("apply", "flip", [q0], [Z0])],
+    ]
     for prog in shadow:
         nodes = pre + prog
         c = {"chunks": [nodes], "seed": 1, "lay": None}
